@@ -183,6 +183,18 @@ def generate(prop, rng, run, tier):
     if bak and bak not in (inp, out) and rng.random() < 0.06:
         # a distinct file whose name is contained in the input's name
         bak = rng.choice([inp[:-1], inp[:inp.rfind(".")]])
+    bare = []
+    if rng.random() < 0.06:
+        # a bare name (no directory part) for the output or the backup while the input has
+        # one: it names a file in the working directory / the root of the filesystem
+        if rng.random() < 0.5:
+            # (not when the backup was derived from the old output name or spells the input)
+            if not bak or (norm(bak) != norm(inp) and bak != out):
+                out = "/bare-out" + ext
+                bare.append(out)
+        else:
+            bak = "/bare-backup" + ext
+            bare.append(bak)
     if prop == "C06" and rng.random() < 0.08:
         # a destination whose parent directory does not exist: the save fails at the open
         # for writing - and a body that raises must still leave the whole tree untouched
@@ -216,6 +228,8 @@ def generate(prop, rng, run, tier):
           "world": {"dirs": ["/Pack", d, "/Pack/Empty"], "files": files},
           "ops": edit}
     cfg = sc["config"]
+    if bare and out != bak:
+        cfg["bare"] = [b for b in bare if b in (out, bak)]
     if rng.random() < 0.5:
         cfg["buffering"] = rng.choice([2, 7, 16, 64, 512, 4096])
     if rng.random() < 0.5:
@@ -256,6 +270,11 @@ def generate(prop, rng, run, tier):
                 cfg["decoy"] = dtext.encode(denc).hex()
             except UnicodeEncodeError:
                 pass
+            if rng.random() < 0.2:
+                # ... or was a "Unicode" (UTF-16 with byte order mark) file
+                le = rng.random() < 0.5
+                cfg["decoy"] = ((b"\xff\xfe" if le else b"\xfe\xff") +
+                                "#TITLE:x;\n".encode("utf-16-le" if le else "utf-16-be")).hex()
         if rng.random() < 0.3:
             cfg["explicit_encoding"] = rng.choice(["utf-8", "cp1252", "cp932", "cp949", "latin-1"])
     return sc
@@ -350,6 +369,12 @@ def run_once(sc, fault=None, body_raise=None, spoil=None, noop_on=None, hooks=No
     inp = cfg["input"] if noop_on is None else noop_on
     out = cfg.get("output") if noop_on is None else None
     bak = cfg.get("backup") if noop_on is None else None
+    bare = set(cfg.get("bare") or ())
+
+    def _sp(path):
+        if path in bare:
+            return path.lstrip("/")          # genuinely relative: needs relative=True below
+        return _spell(path, spelling)
     kw = {}
     if cfg.get("try_encodings") is not None:
         kw["try_encodings"] = list(cfg["try_encodings"])
@@ -368,12 +393,12 @@ def run_once(sc, fault=None, body_raise=None, spoil=None, noop_on=None, hooks=No
     excs = _exc_makers(lib)
     edit = sc["ops"] if noop_on is None else []
     model = None
-    with Facade(cfg["facade"], disk, relative=(spelling == "rel")) as fa:
+    with Facade(cfg["facade"], disk, relative=(spelling == "rel" or bool(bare))) as fa:
         kw.update(fa.kw)
         try:
-            with lib.simfile.mutate(fa.p(_spell(inp, spelling)),
-                                    fa.p(_spell(out, spelling)) if out else out,
-                                    fa.p(_spell(bak, spelling)) if bak else bak, **kw) as sf:
+            with lib.simfile.mutate(fa.p(_sp(inp)),
+                                    fa.p(_sp(out)) if out else out,
+                                    fa.p(_sp(bak)) if bak else bak, **kw) as sf:
                 o.entered = True
                 o.events_at_entry = len(disk.events)
                 o.entry_plain = ops.real_plain(sf, lib)
